@@ -2,8 +2,8 @@
     satisfies the hypotheses of C01_history_transparent. *)
 From Coq Require Import List NArith ZArith Bool Lia.
 Import ListNotations.
-From LV Require Import Model.Base Model.Template Model.Eval Model.Derived Model.EvalRun
-  Proofs.BaseProofs Proofs.EvalProofs Proofs.EvalInd Proofs.FrameProofs Proofs.FrameTheorem Proofs.CacheSim.
+From LV Require Import Model.Base Model.Template Model.Eval Model.Derived Model.EvalRun Proofs.BaseProofs Proofs.EvalProofs Proofs.EvalInd.
+From LV Require Import Proofs.FrameProofs Proofs.FrameTheorem Proofs.CacheSim.
 From LV Require Import Proofs.CoveredDefs.
 
 Lemma cause_eqb_true a b : cause_eqb a b = true -> a = b.
@@ -17,6 +17,7 @@ Section Sound.
   Variable u : N -> list value -> cres.
   Variable fuel : nat.
   Variable sites : N -> option expr.
+  Variable esw : bool.
   Variable sl : list (N * expr).
   Hypothesis sites_listed : forall c b, sites c = Some b -> In (c, b) sl.
 
@@ -39,14 +40,17 @@ Section Sound.
 
   Lemma site_cleanb_sound b o : site_cleanb u fuel b o = true -> site_clean u fuel b o.
   Proof.
-    unfold site_cleanb, site_clean. intros H. apply andb_prop in H as [H H3]. apply andb_prop in H as [H1 H2].
-    split; [exact H1|]. split; [now apply agree_atb_sound|].
-    intros v Hv. unfold rawE, resN in *. rewrite Hv in H3. now apply negb_true_iff in H3.
+    unfold site_cleanb, site_clean. intros H. apply andb_prop in H as [H H4]. apply andb_prop in H as [H H3].
+    apply andb_prop in H as [H1 H2].
+    split; [exact H1|]. split; [now apply agree_atb_sound|]. split.
+    - intros v Hv. unfold rawE, resN in *. rewrite Hv in H3. now apply negb_true_iff in H3.
+    - intros K HK. unfold rawK in H4. rewrite HK in H4. now apply Bool.eqb_prop in H4.
   Qed.
 
-  Lemma okdb_sound o : okdb u fuel sl o = true -> okd u fuel sites o.
+  Lemma okdb_sound o : okdb u fuel esw sl o = true -> okd u fuel sites esw o.
   Proof.
-    unfold okdb, okd. intros H. apply andb_prop in H as [Hw Hs]. split; [exact Hw|].
+    unfold okdb, okd. intros H. apply andb_prop in H as [H Hs]. apply andb_prop in H as [Hw He].
+    split; [exact Hw|]. split; [now apply Bool.eqb_prop in He|].
     intros c b Hcb. rewrite forallb_forall in Hs. apply site_cleanb_sound.
     apply (Hs (c, b)). now apply sites_listed.
   Qed.
@@ -70,20 +74,20 @@ Section Sound.
 
   Definition SC (e : expr) : Prop :=
     forall o (D : dict -> Prop), (forall o', D o' -> o' = o) ->
-      scohb u fuel sl e o = true -> cohP e -> scoh u fuel sites e D.
+      scohb u fuel esw sl e o = true -> cohP e -> scoh u fuel sites esw e D.
   Definition SCopt (x : option expr) : Prop := match x with Some e => SC e | None => True end.
 
   Lemma scohb_list_In (l : list expr) o :
-    (fix go (l : list expr) : bool := match l with [] => true | x :: l' => scohb u fuel sl x o && go l' end) l = true ->
-    forall x, In x l -> scohb u fuel sl x o = true.
+    (fix go (l : list expr) : bool := match l with [] => true | x :: l' => scohb u fuel esw sl x o && go l' end) l = true ->
+    forall x, In x l -> scohb u fuel esw sl x o = true.
   Proof.
     induction l as [|a l IH]; intros H x Hx; [destruct Hx|].
     apply andb_prop in H as [Ha Hl]. destruct Hx as [<-|Hx]; auto.
   Qed.
 
   Lemma scoh_list (l : list expr) D :
-    (forall x, In x l -> scoh u fuel sites x D) ->
-    (fix go (l : list expr) : Prop := match l with [] => True | x :: l' => scoh u fuel sites x D /\ go l' end) l.
+    (forall x, In x l -> scoh u fuel sites esw x D) ->
+    (fix go (l : list expr) : Prop := match l with [] => True | x :: l' => scoh u fuel sites esw x D /\ go l' end) l.
   Proof.
     induction l as [|a l IH]; intros H; [exact I|]. split; [apply H; now left|apply IH; intros; apply H; now right].
   Qed.
@@ -103,7 +107,7 @@ Section Sound.
     - (* EBind *)
       apply andb_prop in Hb as [Hb Hd]. apply andb_prop in Hb as [Hs Ht]. split; [|split].
       + apply (IHe o D HD Hs). intros cb Hin. apply Hc. cbn [sites_of]. apply in_or_app. now left.
-      + assert (G : forall b, In b (map snd tbl) -> scoh u fuel sites b D).
+      + assert (G : forall b, In b (map snd tbl) -> scoh u fuel sites esw b D).
         { intros b Hin. apply (Forall_tbl_In SC _ H b Hin o D HD).
           - clear -Ht Hin. induction tbl as [|[v x] tbl IH]; [destruct Hin|].
             apply andb_prop in Ht as [Hx Ht]. destruct Hin as [<-|Hin]; auto.
@@ -115,7 +119,7 @@ Section Sound.
     - (* ESwitch *)
       apply andb_prop in Hb as [Hb Hd]. apply andb_prop in Hb as [Hs Ht]. split; [|split].
       + apply (IHe o D HD Hs). intros cb Hin. apply Hc. cbn [sites_of]. apply in_or_app. now left.
-      + assert (G : forall b, In b (map snd tbl) -> scoh u fuel sites b D).
+      + assert (G : forall b, In b (map snd tbl) -> scoh u fuel sites esw b D).
         { intros b Hin. apply (Forall_tbl_In SC _ H b Hin o D HD).
           - clear -Ht Hin. induction tbl as [|[v x] tbl IH]; [destruct Hin|].
             apply andb_prop in Ht as [Hx Ht]. destruct Hin as [<-|Hin]; auto.
@@ -166,8 +170,11 @@ Section Sound.
         * intros cb Hin. apply Hc. cbn [sites_of]. apply in_or_app. right. apply in_or_app. right.
           now apply (in_sites_list kwargs x cb Hx).
     - (* EComp *)
-      destruct effects as [|e0 effs]; [|discriminate]. split; [reflexivity|].
-      apply (IHe o D HD Hb). intros cb Hin. apply Hc. cbn [sites_of]. apply in_or_app. now left.
+      apply andb_prop in Hb as [Hbe Hbf]. split.
+      + apply (IHe o D HD Hbe). intros cb Hin. apply Hc. cbn [sites_of]. apply in_or_app. now left.
+      + apply scoh_list. intros x Hx. rewrite Forall_forall in H. apply (H x Hx o D HD).
+        * now apply (scohb_list_In effects o Hbf).
+        * intros cb Hin. apply Hc. cbn [sites_of]. apply in_or_app. right. now apply (in_sites_list effects x cb Hx).
     - (* ELogged *)
       apply (IHe o D HD Hb). exact Hc.
     - (* EPipe *)
@@ -181,27 +188,27 @@ End Sound.
     transparent; [sites] is any function that agrees with the cache sites occurring in the
     expressions (it exists as soon as each cache id occurs with one cached expression, which the
     harness guarantees by construction: cache ids are dataset / cached-node identities) *)
-Theorem covered_hist_ok u fuel sites (es : list expr) (h : list hop) :
+Theorem covered_hist_ok u fuel sites esw (es : list expr) (h : list hop) :
   (forall c b, sites c = Some b -> In (c, b) (flat_map sites_of es)) ->
   (forall cb, In cb (flat_map sites_of es) -> sites (fst cb) = Some (snd cb)) ->
   (forall p, In p h -> In (hop_expr p) es /\
-                       scohb u fuel (flat_map sites_of es) (hop_expr p) (hop_opts p) = true) ->
-  hist_ok u fuel sites h.
+                       scohb u fuel esw (flat_map sites_of es) (hop_expr p) (hop_opts p) = true) ->
+  hist_ok u fuel sites esw h.
 Proof.
   intros H1 H2 Hh p Hp. destruct (Hh p Hp) as [Hin Hb].
-  apply (scohb_sound u fuel sites (flat_map sites_of es) H1 (hop_expr p) (hop_opts p) (eq (hop_opts p))).
+  apply (scohb_sound u fuel sites esw (flat_map sites_of es) H1 (hop_expr p) (hop_opts p) (eq (hop_opts p))).
   - intros o' Ho'. now symmetry.
   - exact Hb.
   - intros cb Hcb. apply H2. apply in_flat_map. exists (hop_expr p). split; assumption.
 Qed.
 
-Corollary covered_history_transparent u fuel cfg site_ok sites (es : list expr) (h : list hop) :
+Corollary covered_history_transparent u fuel cfg site_ok sites esw (es : list expr) (h : list hop) :
   (forall c b, sites c = Some b -> In (c, b) (flat_map sites_of es)) ->
   (forall cb, In cb (flat_map sites_of es) -> sites (fst cb) = Some (snd cb)) ->
   (forall p, In p h -> In (hop_expr p) es /\
-                       scohb u fuel (flat_map sites_of es) (hop_expr p) (hop_opts p) = true) ->
+                       scohb u fuel esw (flat_map sites_of es) (hop_expr p) (hop_opts p) = true) ->
   run_hist u fuel cfg site_ok h [] = map (ref_op u fuel) h.
 Proof.
-  intros H1 H2 Hh. apply history_transparent_from_empty with (sites := sites).
-  now apply (covered_hist_ok u fuel sites es h).
+  intros H1 H2 Hh. apply history_transparent_from_empty with (sites := sites) (esw := esw).
+  now apply (covered_hist_ok u fuel sites esw es h).
 Qed.
